@@ -75,7 +75,13 @@ def run_unit(unit_name, tier, seed, only_props=None):
             out = ""
         lines = {}
         for m in re.finditer(r"NATIVE (\S+) (OK|FAIL) cases=(\d+)(?: nontrivial=(\d+))?(?: first=(.*))?", out):
-            lines[m.group(1)] = (m.group(2), int(m.group(3)), m.group(5) or "", int(m.group(4)) if m.group(4) else None)
+            cur = (m.group(2), int(m.group(3)), m.group(5) or "", int(m.group(4)) if m.group(4) else None)
+            prev = lines.get(m.group(1))
+            if prev is not None:
+                # several test functions may report parts of one obligation (parallel enumeration): aggregate
+                cur = ("FAIL" if "FAIL" in (prev[0], cur[0]) else "OK", prev[1] + cur[1], prev[2] or cur[2],
+                       None if prev[3] is None and cur[3] is None else (prev[3] or 0) + (cur[3] or 0))
+            lines[m.group(1)] = cur
         ub = None
         if miri and "Undefined Behavior" in out:
             m = re.search(r"error: Undefined Behavior: ([^\n]*)", out)
